@@ -412,15 +412,31 @@ pub fn c10_case<G: GroupApi>(a: &Val<G>, f: Fmt) -> Result<u32, Bad> {
 fn c10_group<G: GroupApi>(run: &Run) {
     let mut vs: Vec<Val<G>> = values::<G>(run.tier, run.seed).into_iter().filter(|v| !v.d.is_zero()).collect();
     vs.extend(values_scaled_special::<G>(run.seed));
+    // every small discrete log as well: cheap, and it decorrelates the alphabet from any rule that happens to
+    // agree with the SM9 parity rule on a handful of points (e.g. 'larger root' instead of 'odd root')
+    for d in 4..=run.tier.pick(48u64, 256) {
+        for rp in [Rep::Aff, Rep::LibMul] {
+            if let Some(v) = build::<G>(&n(d), &rp) {
+                vs.push(v);
+            }
+        }
+    }
     let nv = vs.len() as u64;
+    const C10_CLASSES: [&str; 6] = ["prefix-02", "prefix-03", "z=1", "z!=1", "odd-root-is-the-larger-root", "odd-root-is-the-smaller-root"];
     run.grid(
-        Spec { name: &format!("c10.{}", G::NAME), n: nv * 3, classes: &["prefix-02", "prefix-03", "z=1", "z!=1"], required: &["prefix-02", "prefix-03", "z=1", "z!=1"] },
+        Spec { name: &format!("c10.{}", G::NAME), n: nv * 3, classes: &C10_CLASSES, required: &C10_CLASSES },
         |i| {
             let (v, f) = (&vs[(i / 3) as usize], Fmt::ALL[(i % 3) as usize]);
             let k = c10_case::<G>(v, f)?;
             let cb = G::ref_encode(&ref_mul::<G>(&v.d), Fmt::Compressed).unwrap();
             let mut c = if cb[0] == 2 { 1 } else { 2 };
             c |= if v.v.coords().2 == G::RF::one() { 4 } else { 8 };
+            // first 32 bytes after the y offset of the raw encoding = the real part (G2: after the imaginary part) of y
+            let raw = G::ref_encode(&ref_mul::<G>(&v.d), Fmt::Raw).unwrap();
+            let yre = refmodel::from_be(&raw[raw.len() - 32..]);
+            let larger = yre > (refmodel::q() - &yre);
+            let odd = yre.bit(0);
+            c |= if odd == larger { 16 } else { 32 };
             Ok(Tally::new(k, true, c))
         },
         |i| json!({"op": "c10.enc", "group": G::NAME, "P": vs[(i / 3) as usize].json(), "fmt": Fmt::ALL[(i % 3) as usize].name()}),
